@@ -1,6 +1,7 @@
-//! A global allocator wrapper that, while enabled, remembers the layout of every 8-aligned
-//! allocation whose size is a multiple of 16 (the shape of the sorter's EntryBound buffer) and
-//! checks that it is freed with the same layout (C17: "frees with a mismatched layout").
+//! A global allocator wrapper that, while enabled, remembers the layout of every allocation aligned to 8
+//! bytes or more whose size is a multiple of 16 (the shape of the sorter's EntryBound buffer, whatever
+//! alignment it is requested with) and checks that it is freed with the same layout, size and alignment
+//! (C17: "frees with a mismatched layout").
 use std::alloc::{GlobalAlloc, Layout, System};
 use std::sync::atomic::{AtomicBool, AtomicU64, AtomicUsize, Ordering::*};
 
@@ -18,6 +19,7 @@ pub static MISALIGN: AtomicBool = AtomicBool::new(false);
 const CAP: usize = 1 << 16;
 static PTRS: [AtomicUsize; CAP] = [const { AtomicUsize::new(0) }; CAP];
 static SIZES: [AtomicUsize; CAP] = [const { AtomicUsize::new(0) }; CAP];
+static ALIGNS: [AtomicUsize; CAP] = [const { AtomicUsize::new(0) }; CAP];
 const TOMB: usize = 1;
 
 fn slot(p: usize) -> usize {
@@ -36,12 +38,15 @@ unsafe impl GlobalAlloc for Tracking {
             return if q.is_null() { q } else { q.add(1) };
         }
         let p = System.alloc(layout);
-        if !p.is_null() && ENABLED.load(Relaxed) && layout.align() == 8 && layout.size() % 16 == 0 && layout.size() >= 16 {
+        if !p.is_null() && ENABLED.load(Relaxed) && layout.align() >= 8 && layout.size() % 16 == 0 && layout.size() >= 16 {
             let mut i = slot(p as usize);
             for _ in 0..256 {
                 let cur = PTRS[i].load(Acquire);
-                if (cur == 0 || cur == TOMB) && PTRS[i].compare_exchange(cur, p as usize, AcqRel, Relaxed).is_ok() {
+                // (an entry for this very address is stale: the block was freed while tracking was off)
+                if (cur == 0 || cur == TOMB || cur == p as usize) && PTRS[i].compare_exchange(cur, p as usize, AcqRel, Relaxed).is_ok() {
+                    if cur == p as usize { LIVE.fetch_sub(1, Relaxed); }
                     SIZES[i].store(layout.size(), Release);
+                    ALIGNS[i].store(layout.align(), Release);
                     TRACKED.fetch_add(1, Relaxed);
                     LIVE.fetch_add(1, Relaxed);
                     break;
@@ -58,7 +63,7 @@ unsafe impl GlobalAlloc for Tracking {
                 let cur = PTRS[i].load(Acquire);
                 if cur == p as usize {
                     let sz = SIZES[i].load(Acquire);
-                    if sz != layout.size() || layout.align() != 8 {
+                    if sz != layout.size() || layout.align() != ALIGNS[i].load(Acquire) {
                         MISMATCHES.fetch_add(1, Relaxed);
                     }
                     PTRS[i].store(TOMB, Release);
